@@ -13,7 +13,7 @@ from props.C06 import coq_curve, gen_curve
 
 class P(Prop):
     ID = "C05"
-    THEOREMS = ["C05_no_full_pti", "C05_full_pti", "C05_both_within_eps", "C05_loss"]
+    THEOREMS = ["C05_no_full_pti", "C05_full_pti", "C05_load_sharing_step", "C05_both_within_eps", "C05_loss"]
     MAKE_TARGETS = ["theories/Props/C05.vo", "theories/Check/Check_C04.vo"]
     CHECK_REQUIRE = ("From Coq Require Import QArith List Bool.\nFrom Feems Require Import Base.Num Base.Pchip Model.Component "
                      "Model.Shaft Model.Hybrid Check.Check_C06 Check.Check_C04.\nOpen Scope Q_scope.")
@@ -56,6 +56,21 @@ class P(Prop):
                 load = [Fraction(rng.randint(1, 28), 32) * rated_pti if f else Fraction(rng.randint(8, 40), 8) * 250 for f in full]
                 machines.append({"name": name, "line": j + 1, "full": full, "load": load,
                                  "e0": [Fraction(rng.randint(-28, 28), 32) * rated_pti for _ in range(n)]})
+            # one machine that SHARES THE LOAD with the sources on some steps (PTO in equal-sharing mode, flag 0) and follows its
+            # set-point on the others; full-PTI steps are set-point steps
+            if nm == 1 and rng.random() < 0.35:
+                m0 = machines[0]
+                lsm = [1 if f else rng.choice([0, 0, 1]) for f in m0["full"]]
+                if all(x == 1 for x in lsm):
+                    lsm[rng.randrange(n)] = 0 if not all(m0["full"]) else 1
+                lsm = [1 if f else x for f, x in zip(m0["full"], lsm)]
+                m0["lsm"] = lsm
+                m0["e0"] = [Fraction(0) if x == 0 else e for x, e in zip(lsm, m0["e0"])]
+            # a machine that only ever generates (PTO) or only ever motors (PTI) over the whole series
+            elif rng.random() < 0.3:
+                sgn = rng.choice([1, -1])
+                for m_ in machines:
+                    m_["e0"] = [sgn * abs(e) if e != 0 else sgn * rated_pti / 4 for e in m_["e0"]]
             share = nm == 2 and rng.random() < 0.5
             if share:            # both machines are handed THE SAME set-point array object
                 machines[1]["e0"] = machines[0]["e0"]
@@ -92,6 +107,8 @@ class P(Prop):
                 o.load_sharing_mode = np.ones(n) if k == "PtiPto" else np.zeros(n)
         for m, o in zip(case["machines"], ptis):
             arr = shared if shared is not None else np.array([float(x) for x in m["e0"]])
+            if m.get("lsm"):
+                o.load_sharing_mode = np.array([float(x) for x in m["lsm"]])
             msys.set_power_input_pti_pto_by_value_for_name_shaft_line_id(m["name"], m["line"], arr)
             msys.set_full_pti_mode_for_name_shaft_line_id(m["name"], m["line"], np.array(m["full"], dtype=bool))
         for d, o in zip(case["mech"], mobjs):
@@ -125,14 +142,18 @@ class P(Prop):
         for t in range(case["n"]):
             cons = sum(v[t] for v in case["cons"].values())
             net = core.coq_q(cons)
+            bal = [m for m in case["machines"] if m.get("lsm") and m["lsm"][t] == 0]      # sharing the load at this step
+            cap = sum(Fraction(r) for r in obs["src_rated"]) + sum(Fraction(defs[m["name"]]["rated"]) for m in bal)
             for j, (m, o) in enumerate(zip(case["machines"], obs["machines"])):
-                hin = (f"{{| h_e0 := {core.coq_q(m['e0'][t])}; h_load := {core.coq_q(m['load'][t])}; "
-                       f"h_full := {core.coq_bool(m['full'][t])}; h_any_full := {anyf} |}}")
+                e0 = core.coq_q(m['e0'][t]) if m not in bal else core.coq_q(-Fraction(defs[m['name']]['rated']) * Fraction(cons) / cap)
+                hin = (f"{{| h_e0 := {e0}; h_load := {core.coq_q(m['load'][t])}; "
+                       f"h_full := {core.coq_bool(m['full'][t])}; h_any_full := {anyf}; h_bal := {core.coq_bool(m in bal)} |}}")
                 engines = core.coq_list([f"{{| e_rated := {core.coq_q(Fraction(r))}; e_on := true |}}" for r in o["eng_rated"]])
                 parts.append(f"machine_ok p{j} {hin} {engines} {scale} {core.coq_fl(o['elec'][t])} {core.coq_fl(o['shaft'][t])} "
                              f"{core.coq_fl_list([e[t] for e in o['engines']])}")
-                net += f" + ebal p{j} {hin}"
-            parts.append(f"sources_ok {core.coq_q_list([Fraction(r) for r in obs['src_rated']])} ({net}) {scale} "
+                if m not in bal:
+                    net += f" + ebal p{j} {hin}"
+            parts.append(f"sources_ok_cap {core.coq_q_list([Fraction(r) for r in obs['src_rated']])} {core.coq_q(cap)} ({net}) {scale} "
                          f"{core.coq_fl_list([s[t] for s in obs['sources']])}")
         return f"({lets}(" + "\n && ".join(parts) + ")%bool)"
 
@@ -189,6 +210,11 @@ class P(Prop):
         t = [f"nswb={len(case['elec']['swbs'])}", f"n={case['n']}", f"machines={len(case['machines'])}"]
         if case["share_array"]:
             t.append("machines-share-one-setpoint-array")
+        if any(m.get("lsm") for m in case["machines"]):
+            t.append("machine-shares-the-load-on-some-steps(flag 0)")
+        es = [e for m in case["machines"] for e, f in zip(m["e0"], m["full"]) if not f]
+        if es and (all(e < 0 for e in es) or all(e > 0 for e in es)):
+            t.append("series-all-PTO" if es[0] < 0 else "series-all-PTI")
         fl = [f for m in case["machines"] for f in m["full"]]
         t.append("full-pti:" + ("all" if all(fl) else "some" if any(fl) else "none"))
         if any(e < 0 and not f for m in case["machines"] for e, f in zip(m["e0"], m["full"])):
